@@ -76,7 +76,7 @@ def ecdsa(k, h, ht=1):
     return secp.der_sig(*secp.ecdsa_sign(k.d, h)) + bytes([ht])
 
 
-TYPES = ['p2pk', 'p2pkh', 'multisig', 'p2sh-multisig', 'p2sh-script', 'p2wpkh', 'p2wsh', 'p2wsh-script', 'p2sh-p2wpkh', 'p2sh-p2wsh', 'p2tr-key', 'p2tr-script']
+TYPES = ['p2pk', 'p2pkh', 'multisig', 'p2sh-multisig', 'p2sh-script', 'p2wpkh', 'p2wsh', 'p2wsh-script', 'p2sh-p2wpkh', 'p2sh-p2wsh', 'p2tr-key', 'p2tr-script', 'p2wsh-codesep']
 
 
 def arith_script(rnd):
@@ -123,6 +123,10 @@ def build(rnd, typ, ninputs=None, same_fund_decoy=False, allow_invalid=False):
         spk = b'\x00\x20' + R.sha256(ms)
     elif typ == 'p2wsh-script':
         spk = b'\x00\x20' + R.sha256(ascript)
+    elif typ == 'p2wsh-codesep':
+        # two REAL signatures around an executed code separator: each signs a different script code (BIP143: from the last executed separator on)
+        cs_script = P(k[0].pub) + b'\xad' + (b'\x61' if rnd.random() < 0.3 else b'') + b'\xab' + P(k[1].pub) + (b'\xac' if rnd.random() < 0.7 else b'\xad\x51')
+        spk = b'\x00\x20' + R.sha256(cs_script)
     elif typ == 'p2sh-p2wpkh':
         redeem = b'\x00\x14' + h160(k[0].pub)
         spk = b'\xa9\x14' + h160(redeem) + b'\x87'
@@ -218,6 +222,11 @@ def build(rnd, typ, ninputs=None, same_fund_decoy=False, allow_invalid=False):
             vin['script'] = P(redeem)
     elif typ == 'p2wsh-script':
         vin['wit'] = list(aargs) + [ascript]
+    elif typ == 'p2wsh-codesep':
+        after = cs_script[cs_script.index(b'\xab', 35) + 1:]
+        h1 = reftx.sighash_v0(tx, idx, cs_script, value, ht)
+        h2 = reftx.sighash_v0(tx, idx, after, value, ht)
+        vin['wit'] = [ecdsa(k[1], h2, ht), ecdsa(k[0], h1, ht), cs_script]
     elif typ == 'p2tr-key':
         sht = rnd.choice([0, 0, 1, 2, 3, 0x81, 0x83])
         annex = (b'\x50' + bytes(rnd.getrandbits(8) for _ in range(rnd.randint(0, 5)))) if rnd.random() < 0.25 else None
@@ -344,9 +353,9 @@ def corrupt(c, kind, rnd):
         else:
             ops = R.decode(vin['script'])
             vin['script'] = P(ops[0][1]) + P(other.pub)
-    elif kind == 'scriptsig_junk' and typ in ('p2wpkh', 'p2wsh', 'p2wsh-script', 'p2tr-key', 'p2tr-script'):
+    elif kind == 'scriptsig_junk' and typ in ('p2wpkh', 'p2wsh', 'p2wsh-script', 'p2wsh-codesep', 'p2tr-key', 'p2tr-script'):
         vin['script'] = b'\x51'
-    elif kind == 'witscript_bit' and typ in ('p2wsh', 'p2wsh-script', 'p2sh-p2wsh'):
+    elif kind == 'witscript_bit' and typ in ('p2wsh', 'p2wsh-script', 'p2wsh-codesep', 'p2sh-p2wsh'):
         vin['wit'][-1] = flip(vin['wit'][-1], rnd)
     elif kind == 'tiny_scriptsig' and not vin['wit'] and typ in ('p2pk', 'p2pkh', 'multisig', 'p2sh-multisig', 'p2sh-script'):
         # a very short scriptSig in front of a long scriptPubKey / redeem script (the script storage switches from inline to heap)
